@@ -68,12 +68,32 @@ template<int D> static void trial(std::mt19937 & rng, int kind)
   if (!((H3 - refs).norm() <= 1e-8 * (1 + refs.norm()))) FAIL("%dD, %zu index-based correspondences (fresh object): result differs from the linearised normal-equation solution by %.3g", D, sub.size(), (H3 - refs).norm());
 }
 
+// preconditioning invariance on ONE estimator object reconfigured for successive scan pairs: scale 0.05, then 1, then 20 (isotropic scaling
+// of both sets, same scale, no translation): every result must be the transform found on the raw points
+template<int D> static void precond_sequence(std::mt19937 & rng)
+{
+  using V = Eigen::Matrix<double, D, 1>;
+  FindRigidTransformationByLeastSquares<V> f;
+  for (double scale : {0.05, 1.0, 20.0, 1.0}) {
+    int n = 20 + rng() % 20;
+    PointSet<V> src, dst; NormalSet<V> nrm;
+    V T; for (int i = 0; i < D; ++i) T[i] = 0.3 + 0.4 * u01(rng);
+    for (int i = 0; i < n; ++i) { V p, nn; for (int k = 0; k < D; ++k) { p[k] = u01(rng) * 10; nn[k] = u01(rng); } if (nn.norm() < 0.2) nn[i % D] += 1.0; nn.normalize(); src.push_back(p); dst.push_back(p + T); nrm.push_back(nn); }
+    std::vector<Correspondence> id; for (int i = 0; i < n; ++i) id.emplace_back(i, i);
+    PreconditionedPointSet<V> ps, pt; ps.compute(src, scale); pt.compute(dst, scale);
+    f.setPreconditioner(ps, pt);
+    Eigen::Matrix<double, D + 1, D + 1> H = f.find(ps, pt, nrm), ref = reference<D>(src, dst, nrm, id);
+    if (!((H - ref).norm() <= 1e-7 * (1 + ref.norm()))) FAIL("%dD, one estimator reconfigured with setPreconditioner, preconditioning scale %g: result differs from the one found on the raw points by %.3g (translation x = %.6g, expected %.6g)", D, scale, (H - ref).norm(), H(0, D), ref(0, D));
+  }
+}
+
 int main(int argc, char ** argv)
 {
   std::map<std::string, std::string> A;
   for (int i = 1; i < argc; ++i) { std::string a(argv[i]); auto p = a.find('='); if (p != std::string::npos) A[a.substr(0, p)] = a.substr(p + 1); }
   std::mt19937 rng(A.count("seed") ? (unsigned)atol(A["seed"].c_str()) : 0);
   for (int k = 0; k < 120; ++k) { trial<3>(rng, k % 3); trial<2>(rng, k % 3); }
+  for (int k = 0; k < 5; ++k) { precond_sequence<3>(rng); precond_sequence<2>(rng); }
   if (fails) { printf("%d failing checks\n", fails); return 1; }
   printf("no failing input found: results solve the linearised point-to-plane normal equations; translations exact; rotations to O(t^2); aligned and index-based agree\n");
   return 0;
